@@ -36,32 +36,37 @@ theorem ReachAbove.last {a : Nat} {s s' : St} (h : ReachAbove a s s') : a ≤ s'
   | refl h => exact h
   | step _ _ _ ih => exact ih
 
-theorem Running.topA {b : Base} {s : St} {top : Act} {rest : List Act} (h : Running b s top rest) : top.A = s.addr.length := by
-  obtain ⟨_, _, _, _, _, _, ha⟩ := h.inv
-  exact ha.symm
-
 theorem Chain.A_lt {b : Base} {s : St} : ∀ (acts : List Act) (D : List Cell) (S : Nat) (addr : List (Option (Nat × Int))),
-    Chain b s acts D S addr → (∀ x ∈ acts, x.A < addr.length ∧ b.addr.length < x.A) ∧ b.addr.length < addr.length
-  | [], _, _, _, h => ⟨fun x hx => (by cases hx), by rw [h.2.2]; simp⟩
+    Chain b s acts D S addr → (∀ x ∈ acts, x.A < addr.length) ∧
+      (b.main = false → (∀ x ∈ acts, b.addr.length < x.A) ∧ b.addr.length < addr.length)
+  | [], _, _, _, h => ⟨fun x hx => (by cases hx), fun hm => ⟨fun x hx => (by cases hx), by
+      have h3 := h.2.2
+      rw [hm] at h3
+      simp only [Bool.false_eq_true, if_false] at h3
+      rw [h3]; simp⟩⟩
   | a :: r, D, S, addr, h => by
     obtain ⟨r', tail, h1, _, _, h4, _, h6⟩ := h
     obtain ⟨ih1, ih2⟩ := Chain.A_lt r _ _ _ h6
     rw [h1]
     simp only [List.length_cons]
-    refine ⟨fun x hx => ?_, by omega⟩
-    rcases List.mem_cons.mp hx with rfl | hx
-    · omega
-    · have := ih1 x hx; omega
+    refine ⟨fun x hx => ?_, fun hm => ⟨fun x hx => ?_, by have := (ih2 hm).2; omega⟩⟩
+    · rcases List.mem_cons.mp hx with rfl | hx
+      · omega
+      · have := ih1 x hx; omega
+    · rcases List.mem_cons.mp hx with rfl | hx
+      · have := (ih2 hm).2; omega
+      · exact (ih2 hm).1 x hx
 
 /-- the activation `a0` (on the activations `rest0`) is on the stack of activations of `s` -/
 def Holds (b : Base) (a0 : Act) (rest0 : List Act) (s : St) : Prop :=
   WF s ∧ ∃ upper top rest, Running b s top rest ∧ top :: rest = upper ++ a0 :: rest0
 
-theorem holds_step {b : Base} {a0 : Act} {rest0 : List Act} {s s' : St} (h : Holds b a0 rest0 s) (hv : VmStep s s')
-    (ha : a0.A ≤ s'.addr.length) : Holds b a0 rest0 s' := by
+theorem holds_step_ext {b : Base} {a0 : Act} {rest0 : List Act} {s s' : St} (h : Holds b a0 rest0 s) (hv : VmStep s s')
+    (ha : a0.A ≤ s'.addr.length) : Holds b a0 rest0 s' ∧ TExt s s' := by
   obtain ⟨hw, upper, top, rest, hr, hst⟩ := h
   obtain ⟨fuel, i, _, hf, hex⟩ := hv
-  obtain ⟨hw', _, hn, _⟩ := (allSpec' (fuel + 1)).exec b s s' top rest i hw hr hf hex
+  obtain ⟨hw', he, hn, _⟩ := (allSpec' (fuel + 1)).exec b s s' top rest i hw hr hf hex
+  refine ⟨?_, he⟩
   have hlt := Chain.A_lt _ _ _ _ hr.chain
   have hmem : a0 = top ∨ a0 ∈ rest := by
     have : a0 ∈ top :: rest := by rw [hst]; simp
@@ -75,7 +80,6 @@ theorem holds_step {b : Base} {a0 : Act} {rest0 : List Act} {s s' : St} (h : Hol
       simp only [List.nil_append, List.cons.injEq] at hst
       obtain ⟨rfl, hr0⟩ := hst
       have h1a := h1.topA
-      have := hlt.1 a (by rw [hrest]; simp)
       have htop := hr.topA
       -- the caller's depth is one less than the callee's
       obtain ⟨r', tail, e1, _, _, e4, _, _⟩ := (by rw [hrest] at hr; exact hr.chain : Chain b s (a :: r) top.D top.S s.addr)
@@ -85,15 +89,17 @@ theorem holds_step {b : Base} {a0 : Act} {rest0 : List Act} {s s' : St} (h : Hol
       simp only [List.cons_append, List.cons.injEq] at hst
       exact ⟨hw', us, a, r, h1, by rw [← hrest]; exact hst.2⟩
   · exfalso
-    have hA : b.addr.length < a0.A ∨ True := Or.inr trivial
     have hfa := hfin.addr
     rw [hfa] at ha
+    obtain ⟨hl1, hl2⟩ := hlt.2 hfin.notMain
     rcases hmem with rfl | hm
     · have := hr.topA
-      have := hlt.2
       omega
-    · have h2 := hlt.1 a0 hm
+    · have h2 := hl1 a0 hm
       omega
+
+theorem holds_step {b : Base} {a0 : Act} {rest0 : List Act} {s s' : St} (h : Holds b a0 rest0 s) (hv : VmStep s s')
+    (ha : a0.A ≤ s'.addr.length) : Holds b a0 rest0 s' := (holds_step_ext h hv ha).1
 
 theorem holds_reach {b : Base} {a0 : Act} {rest0 : List Act} {s s' : St} (hr : ReachAbove a0.A s s') (h : Holds b a0 rest0 s) :
     Holds b a0 rest0 s' := by
@@ -124,10 +130,11 @@ theorem holds_top {b : Base} {a0 : Act} {rest0 : List Act} {s : St} (h : Holds b
 
 /-- at instruction 0 of an activation: exactly the formals' worth of operands on the data the
 activation was entered with, the scope depth it was entered with -/
-theorem Running.at_pc0 {b : Base} {s : St} {top : Act} {rest : List Act} (h : Running b s top rest) (hpc : s.pc = 0) :
+theorem Running.at_pc0 {b : Base} {s : St} {top : Act} {rest : List Act} (h : Running b s top rest) (hpc : s.pc = 0)
+    (hA : top.A ≠ 0) :
     s.data.map cellOf = List.replicate (fnB s top.f).entryCount .val ++ top.D ∧ s.linear.length = top.S := by
   obtain ⟨a, own, hann, hd, hconc, hsc, _⟩ := h.inv
-  obtain ⟨t, ht, hle⟩ := h.ok.entry
+  obtain ⟨t, ht, hle⟩ := h.ok.entry hA
   have h0 : (absC s).pc = 0 := by show s.pc.toNat = 0; rw [hpc]; rfl
   rw [h0, ht] at hann
   cases hann
@@ -148,14 +155,15 @@ calls, callees, tail jumps, any number of iterations — without the address sta
 shorter than at `E` (the activation has not returned); whenever it is back at that address depth
 and at instruction 0, it is in the same function with data and scope stacks of the depths of `E`. -/
 theorem reentry_depths (b : Base) (E E' : St) (top : Act) (rest : List Act) (hw : WF E) (hr : Running b E top rest)
-    (hpc : E.pc = 0) (hreach : ReachAbove E.addr.length E E') (ha : E'.addr.length = E.addr.length) (hpc' : E'.pc = 0) :
+    (hpc : E.pc = 0) (hA0 : E.addr ≠ []) (hreach : ReachAbove E.addr.length E E') (ha : E'.addr.length = E.addr.length) (hpc' : E'.pc = 0) :
     WF E' ∧ Running b E' top rest ∧ E'.curfunc = E.curfunc ∧ E'.data.length = E.data.length ∧
       E'.linear.length = E.linear.length := by
   have hA := hr.topA
   have hh : Holds b top rest E := ⟨hw, [], top, rest, hr, rfl⟩
   obtain ⟨hw', hr'⟩ := holds_top (holds_reach (by rw [hA]; exact hreach) hh) (by rw [ha, hA])
-  obtain ⟨d1, l1⟩ := hr.at_pc0 hpc
-  obtain ⟨d2, l2⟩ := hr'.at_pc0 hpc'
+  have hA0' : top.A ≠ 0 := by rw [hA]; exact fun h => hA0 (List.length_eq_zero_iff.mp h)
+  obtain ⟨d1, l1⟩ := hr.at_pc0 hpc hA0'
+  obtain ⟨d2, l2⟩ := hr'.at_pc0 hpc' hA0'
   have hfb : (fnB E' top.f).entryCount = (fnB E top.f).entryCount := by
     -- the function object of the activation is the same (tables only grow)
     have h1 := hr.ok.len
@@ -163,8 +171,8 @@ theorem reentry_depths (b : Base) (E E' : St) (top : Act) (rest : List Act) (hw 
     have e1 : (fnB E top.f).entryCount = (fnOf E top.f).params.length := rfl
     have e2 : (fnB E' top.f).entryCount = (fnOf E' top.f).params.length := rfl
     -- both describe `replicate entryCount val ++ top.D` against the same entry annotation
-    obtain ⟨t1, ht1, hle1⟩ := hr.ok.entry
-    obtain ⟨t2, ht2, hle2⟩ := hr'.ok.entry
+    obtain ⟨t1, ht1, hle1⟩ := hr.ok.entry hA0'
+    obtain ⟨t2, ht2, hle2⟩ := hr'.ok.entry hA0'
     rw [ht1] at ht2
     cases ht2
     have b1 := (le_elim _ _ hle1).2.1
